@@ -31,7 +31,7 @@ class Outcome:
         self.bounds = {}
         self.outside = []
         self.stats = dict(paths=0, pruned=0, branch_queries=0, verdict_queries=0, solver_s=0.0, forks=0,
-                          verdict_unsat=0, verdict_sat=0)
+                          verdict_unsat=0, verdict_sat=0, verdict_trivial=0)
         self.notes = []
         self.parts = {}  # sub-claim -> dict(paths=, queries=, ...)
 
@@ -94,14 +94,15 @@ def finish(out):
                    'bounded symbolic execution of the repository modules imported from %s (engine S: '
                    'operator overloading, z3 decides every branch feasibility and every postcondition); '
                    'see bounds / outside_the_claim' % REPO)
-    cov['obligations'] = st['verdict_queries']
-    cov['discharged'] = st['verdict_unsat'] + st['verdict_sat']
+    cov['obligations'] = st['verdict_queries'] + st.get('verdict_trivial', 0)
+    cov['discharged'] = st['verdict_unsat'] + st['verdict_sat'] + st.get('verdict_trivial', 0)
     cov['paths'] = st['paths']
     cov['paths_pruned_by_assumptions'] = st['pruned']
     cov['branch_feasibility_queries'] = st['branch_queries']
     cov['verdict_queries'] = st['verdict_queries']
     cov['verdict_unsat'] = st['verdict_unsat']
     cov['verdict_sat'] = st['verdict_sat']
+    cov['verdicts_closed_by_normal_form'] = st.get('verdict_trivial', 0)
     cov['solver_seconds'] = round(st['solver_s'], 3)
     cov['functions_encoded'] = sorted(out.functions)
     cov['bounds'] = out.bounds
